@@ -206,17 +206,17 @@ func genScript(r *hx.Rng, idx int) script {
 }
 
 // exhaustiveSmall: every arrival order of {honest 0, honest 1, honest 2, one
-// Byzantine message} for n=3 (k=2), for a few Byzantine kinds: 24 orders each.
+// Byzantine message} for n=4 (k=3: the party lives until the third honest share), for a few Byzantine kinds: 24 orders each.
 func exhaustiveSmall() []script {
 	var out []script
-	byzKinds := []string{declaredOther(0, "X1"), declaredOther(2, "X1") + " rand=junk", "signer=3", "signer=1 sig=s.0.H", "signer=1 idenc=over"}
+	byzKinds := []string{declaredOther(0, "X1"), declaredOther(2, "X1") + " rand=junk", "signer=4", "signer=1 sig=s.0.H", "signer=1 idenc=over"}
 	base := []string{honest(0), honest(1), honest(2)}
 	for bi, bz := range byzKinds {
 		items := append(append([]string{}, base...), bz)
 		var rec func(cur []string, rest []string)
 		rec = func(cur []string, rest []string) {
 			if len(rest) == 0 {
-				lines := []string{header(3, allMembers(3), "64", false), "enter"}
+				lines := []string{header(4, allMembers(4), "64", false), "enter"}
 				for _, m := range cur {
 					lines = append(lines, "m "+m)
 				}
@@ -258,6 +258,7 @@ func leadScripts() []script {
 			header(3, allMembers(3), "64", false) + fmt.Sprintf(" life=1 try=%d", i),
 			"cast wait", "m signer=0 filed=K idenc=over", "notify accept", "m signer=1", "m signer=2", "m signer=1"}})
 	}
+	out = append(out, lruScripts()...)
 	_ = strings.Join
 	return out
 }
@@ -383,5 +384,40 @@ func impersonationScripts() []script {
 			out = append(out, script{name: fmt.Sprintf("imp-live-%s-%d", tag, n), lines: l})
 		}
 	}
+	return out
+}
+
+// lruScripts: Processor.futureMessages is an LRU of 50 KEYS (lead 3, and the boundary/recency cases the
+// model's `Lru` has to reproduce): 50 other keys evict the block hash, 49 do not; a second parked share
+// moves the block hash to the front again (Get + Add), so 49 + 49 other keys around it evict nothing.
+func lruScripts() []script {
+	var out []script
+	others := func(from, cnt, n int) []string {
+		var l []string
+		for j := 0; j < cnt; j++ {
+			l = append(l, fmt.Sprintf("m signer=%d filed=X%d", n, from+j))
+		}
+		return l
+	}
+	for _, n := range []int{3, 5} {
+		k := groupK(n)
+		head := []string{header(n, allMembers(n), "64", false) + " life=1"}
+		for i := 0; i < k-1; i++ {
+			head = append(head, "m "+honest(i))
+		}
+		tail := []string{"cast accept", "m " + honest(k-1)}
+		l := append(append(append([]string{}, head...), others(100, 50, n)...), tail...)
+		out = append(out, script{name: fmt.Sprintf("lead-lru-evict-%d", n), lines: l})
+		l = append(append(append([]string{}, head...), others(100, 49, n)...), tail...)
+		out = append(out, script{name: fmt.Sprintf("lead-lru-49-%d", n), lines: l})
+	}
+	// recency: n=5 (k=3): share 0 parked, 49 other keys, share 1 parked (block hash back to the front),
+	// 49 more other keys, accepted while round0 waited, share 2 live
+	l := []string{header(5, allMembers(5), "64", false) + " life=1", "cast wait", "m " + honest(0)}
+	l = append(l, others(200, 49, 5)...)
+	l = append(l, "m "+honest(1))
+	l = append(l, others(300, 49, 5)...)
+	l = append(l, "notify accept", "m "+honest(2))
+	out = append(out, script{name: "lru-recency-5", lines: l})
 	return out
 }
